@@ -135,3 +135,46 @@ func C01_PredicateCheck() {
 		nd.Assert(isBool || r[0] == nil, "C01/predicate-check/not-true-false-or-null "+c)
 	}
 }
+
+var _ = reg("C01_Wide", C01_Wide)
+
+// C01_Wide: sequences of two items: documents with two elements / members,
+// so that the outcome can depend on a later item of an iteration, and each
+// path also under exists(), which runs the executor's early-exit code inside
+// a collecting Query.
+func C01_Wide() {
+	base := laterPaths[nd.Choice(len(laterPaths))]
+	var src string
+	switch nd.Choice(3) {
+	case 0:
+		src = base
+	case 1:
+		src = "exists(" + base + ")"
+	default:
+		src = "$ ? (exists(" + replaceRoot(base) + "))"
+	}
+	src = modePrefix() + src
+	var doc any
+	if nd.Thorough() {
+		doc = nd.JSON(nd.Spec{Kinds: nd.KFloat | nd.KArray | nd.KObject, Depth: 2, Width: 2, Keys: []string{"a", "b"}})
+	} else {
+		// exactly two entries at the top, one level below them
+		es := nd.Spec{Kinds: nd.KFloat | nd.KArray | nd.KObject, Depth: 1, Width: 1, Keys: []string{"a", "b"}}
+		if nd.Choice(2) == 0 {
+			doc = []any{nd.JSON(es), nd.JSON(es)}
+		} else {
+			doc = map[string]any{"a": nd.JSON(es), "b": nd.JSON(es)}
+		}
+	}
+	conform("C01/wide "+src, src, doc, nil)
+}
+
+// replaceRoot rewrites the leading $ of a pool path to @ ("-$[*]" included).
+func replaceRoot(s string) string {
+	for i := 0; i < len(s); i++ {
+		if s[i] == '$' {
+			return s[:i] + "@" + s[i+1:]
+		}
+	}
+	return s
+}
